@@ -795,6 +795,10 @@ def seam_handler(seam, result_kind=None, may_raise=(), frame=(), snapshot=()):
         # the arguments of the (last) call and the values other ghost variables had when it was made
         for i, a in enumerate(([recv] if recv is not None else []) + list(args)):
             st.ghost[f"{seam}.arg{i}"] = a
+        # keyword arguments of the (last) call: values as <seam>.kw.<name>, the set of names as <seam>.kwnames
+        for kname, kval in (kwargs or {}).items():
+            st.ghost[f"{seam}.kw.{kname}"] = kval
+        st.ghost[f"{seam}.kwnames"] = const(sorted(kwargs or {}))
         for g in snapshot:
             for _st, v in ghost_reader(eng, st, [const(g)], {}, node):
                 st.ghost[f"{seam}.saw.{g}"] = v
